@@ -137,9 +137,10 @@ type User struct {
 }
 
 type StorageCall struct {
-	Op   string   `json:"op"`
-	Args []string `json:"args,omitempty"`
-	Err  bool     `json:"err,omitempty"`
+	Op       string   `json:"op"`
+	Args     []string `json:"args,omitempty"`
+	Err      bool     `json:"err,omitempty"`
+	KeyFault string   `json:"key_fault,omitempty"`
 }
 
 type Storage struct {
@@ -156,6 +157,7 @@ type Storage struct {
 	counts    map[string]int
 	nextID    int
 	CreateNil bool // CreateAuthRequest returns (nil, nil)
+	KeyFaults map[string]map[int]string // key getter -> occurrence -> malformed record kind
 }
 
 func newStorage() *Storage {
@@ -213,6 +215,10 @@ func (s *Storage) GetMetadataSigningKey(context.Context) (*key.CertificateAndKey
 	if err := s.fault("GetMetadataSigningKey"); err != nil {
 		return nil, err
 	}
+	if k := s.KeyFaults["GetMetadataSigningKey"][s.counts["GetMetadataSigningKey"]]; k != "" {
+		s.Calls[len(s.Calls)-1].KeyFault = k
+		return s.applyKeyFault("GetMetadataSigningKey", k), nil
+	}
 	if s.MetaKeyNil {
 		return nil, nil
 	}
@@ -223,6 +229,10 @@ func (s *Storage) GetResponseSigningKey(context.Context) (*key.CertificateAndKey
 	defer s.mu.Unlock()
 	if err := s.fault("GetResponseSigningKey"); err != nil {
 		return nil, err
+	}
+	if k := s.KeyFaults["GetResponseSigningKey"][s.counts["GetResponseSigningKey"]]; k != "" {
+		s.Calls[len(s.Calls)-1].KeyFault = k
+		return s.applyKeyFault("GetResponseSigningKey", k), nil
 	}
 	if s.RespKeyNil {
 		return nil, nil
